@@ -49,7 +49,22 @@ def handleGroups (l1 l2 : List Str) : String :=
     ",".intercalate (as.map (fun a => row (fun x y => tf (objEq x y)) a all)),
     ",".intercalate (as.map (fun a => row (fun x y => encBoolE (hcEq x y)) a all))]
 
+/-- `pseq <p1> <spec1> <p2> <spec2> …` : the port lists (run encoded) of the constructions, in order -/
+def decPairs : List String → Option (List (Str × Str))
+  | [] => some []
+  | p :: s :: rest =>
+    match decStr p, decStr s, decPairs rest with
+    | some p, some s, some r => some ((p, s) :: r)
+    | _, _, _ => none
+  | [_] => none
+
 def handle : List String → String
+  | "pseq" :: rest =>
+    match decPairs rest with
+    | none => "bad-request"
+    | some l => "|".intercalate ((pseq l).map (fun r => match r with
+        | .ok ports => "ok " ++ Ccp.Drv.Asa.encRuns ports
+        | .error e => errName e))
   | ["l4", p1, y1, s1, p2, y2, s2] =>
     match decStr p1, decStr y1, decStr s1, decStr p2, decStr y2, decStr s2 with
     | some a, some b, some c, some d, some e, some f => handleL4 a b c d e f
